@@ -22,6 +22,11 @@ Render(r) ==
     [] r.shape \in {"string_error", "bytes_error"} ->
          IF r.err # "" THEN Sends(500, r.err) ELSE IF r.s = "" THEN Nothing ELSE Sends(200, r.s)
 
+\* rh = a ReturnHandler mapped in the injector replaces the table: the harness' custom handler answers every
+\* non-empty result list with status 299 and the body "RH"
+RenderWith(rh, r) ==
+  IF rh THEN (IF r.shape = "none" THEN Nothing ELSE Sends(299, "RH")) ELSE Render(r)
+
 (* ------------------------- layer P: the monitor ----------------------- *)
 \* m = [ok, stk, lastp1, st, code, body, cn, pend, pan, why]
 \* pend: "must"/"may"/"no": whether the next event must/may/cannot be the start of the next handler;
